@@ -1165,17 +1165,22 @@ fn run_inner(sc: &J) -> Result<Option<String>, String> {
             let bytes = jhex(sc, "bytes");
             let rd = apache_avro::reader::datum::GenericDatumReader::builder(&schema).build().map_err(|e| e.to_string())?;
             let mut r1 = &bytes[..];
+            let mut n_serde: Option<usize> = None;
             let ok_serde = match sc["as"].as_str().unwrap_or("json") {
                 "bytes" => rd.read_deser::<serde_bytes::ByteBuf>(&mut r1).is_ok(),
-                "unit_vec" => rd.read_deser::<Vec<()>>(&mut r1).is_ok(),
+                "unit_vec" => match rd.read_deser::<Vec<()>>(&mut r1) { Ok(v) => { n_serde = Some(v.len()); true } Err(_) => false },
                 // record r { ticks: array<null>, count: int } (a typed struct: records cannot be deserialized into serde_json::Value)
-                "rec_ticks" => { #[derive(serde::Deserialize)] #[serde(rename = "r")] #[allow(dead_code)] struct R { ticks: Vec<()>, count: i32 } rd.read_deser::<R>(&mut r1).is_ok() }
+                "rec_ticks" => { #[derive(serde::Deserialize)] #[serde(rename = "r")] #[allow(dead_code)] struct R { ticks: Vec<()>, count: i32 } match rd.read_deser::<R>(&mut r1) { Ok(v) => { n_serde = Some(v.ticks.len()); true } Err(_) => false } }
                 _ => rd.read_deser::<serde_json::Value>(&mut r1).is_ok(),
             };
             let used_serde = bytes.len() - r1.len();
             let mut r2 = &bytes[..];
-            let ok_generic = apache_avro::from_avro_datum(&schema, &mut r2, None).is_ok();
+            let generic = apache_avro::from_avro_datum(&schema, &mut r2, None);
+            let ok_generic = generic.is_ok();
             let used_generic = bytes.len() - r2.len();
+            // the number of (zero-width) items each decoder delivers: the declared counts, whatever the block's byte size says
+            let n_generic = match &generic { Ok(Value::Array(items)) => Some(items.len()), Ok(Value::Record(fs)) => fs.iter().find_map(|(_, v)| if let Value::Array(items) = v { Some(items.len()) } else { None }), _ => None };
+            if let (true, true, Some(a), Some(b)) = (ok_serde, ok_generic, n_serde, n_generic) { if a != b { return Ok(Some(format!("the two decoders deliver {a} (schema-aware deserializer) vs {b} (generic decoder) items from {:02x?}", &bytes[..bytes.len().min(24)]))); } }
             if ok_serde != ok_generic { return Ok(Some(format!("the two decoders disagree on {:02x?}: schema-aware deserializer ok={ok_serde}, generic decoder ok={ok_generic}", &bytes[..bytes.len().min(24)]))); }
             if ok_serde && used_serde != used_generic { return Ok(Some(format!("the two decoders consume {used_serde} vs {used_generic} bytes"))); }
             Ok(None)
